@@ -1689,12 +1689,22 @@ impl Tree {
 			None => manifest_last_seq,
 		};
 
+		// Transactions that began before the restore belong to the discarded
+		// timeline and must be turned away with `TransactionRetry`. The oracle
+		// can only do that by `start_seq < kept_since`, and they hold start
+		// sequences up to the last one this process handed out: the counter
+		// restarts above all of them instead of being rewound to the checkpoint's
+		// value (under which their start sequences would also hide every
+		// post-restore commit from the write-write check).
+		let restart_seq_num =
+			std::cmp::max(max_seq_num, self.core.commit_pipeline.last_allocated_seq_num() + 1);
+
 		// Set visible sequence number AND reset the oracle. The live process
-		// may have accumulated oracle entries from pre-restore commits whose
-		// seqs are now ghosts of a future that no longer exists; clearing them
+		// may have accumulated oracle entries from pre-restore commits; those
+		// are ghosts of a future that no longer exists, and clearing them
 		// prevents false write-write conflicts for new post-restore txns.
-		self.core.commit_pipeline.set_seq_num(max_seq_num);
-		self.core.commit_pipeline.reset_oracle_for_restore(max_seq_num);
+		self.core.commit_pipeline.set_seq_num(restart_seq_num);
+		self.core.commit_pipeline.reset_oracle_for_restore(restart_seq_num);
 
 		Ok(metadata)
 	}
